@@ -96,10 +96,16 @@ def r1_plumbing(run):
                   cm.relpath, nontrivial=False)
     # kwargs in parse_authn_request_response
     par = m.func("client_base.Base.parse_authn_request_response")
+    # the options dict is whatever is expanded into _parse_response(**...)
+    stars = [k.value.id for c in calls_named(par.node, "_parse_response")
+             for k in c.keywords if k.arg is None and
+             isinstance(k.value, ast.Name)]
+    dname = stars[0] if len(stars) == 1 else "kwargs"
     kd = [n for n in walk_no_nested(par.node)
           if isinstance(n, ast.Assign) and isinstance(n.value, ast.Dict) and
-          any(isinstance(t, ast.Name) and t.id == "kwargs" for t in n.targets)]
-    run.require(len(kd) == 1, "parse_authn_request_response: kwargs dict vanished")
+          any(isinstance(t, ast.Name) and t.id == dname for t in n.targets)]
+    run.require(len(kd) == 1, "parse_authn_request_response: the options dict "
+                "passed to _parse_response vanished")
     kw = {k.value: v for k, v in zip(kd[0].value.keys, kd[0].value.values)
           if isinstance(k, ast.Constant)}
     for opt in OPTIONS:
